@@ -46,6 +46,7 @@ class Scheduler:
         self.error = None
         self.abort = None
         self.inversions = []
+        self.foreign_releases = []
         self.switches = 0
         self.active = False
 
@@ -178,6 +179,7 @@ class SchedLock:
     """threading.Lock stand-in: blocks by handing the baton to another thread.  threading.Lock promises no fairness,
     so any waiter may win: the model is exact.  Without an active scheduler it is a plain non-reentrant lock."""
     sched = None
+    clock = None
     counter = 0
 
     def __init__(self, name=None):
@@ -198,6 +200,11 @@ class SchedLock:
         while self.held:
             if not blocking:
                 return False
+            if timeout is not None and timeout >= 0 and s.ctx.choose(2, 'lock wait times out?'):
+                # the holder keeps the lock for longer than the waiter is willing to wait (e.g. it sits in a blocking read)
+                if SchedLock.clock is not None:
+                    SchedLock.clock.advance(timeout)
+                return False
             r.blocked_on = self
             s._switch(r, blocked=True)
             r.blocked_on = None
@@ -214,6 +221,8 @@ class SchedLock:
             raise RuntimeError('release unlocked lock')
         self.held = False
         s = SchedLock.sched
+        if s is not None and s.active and self.owner is not None and self.owner is not s.cur:
+            s.foreign_releases.append((self.name, self.owner.name, s.cur.name if s.cur else None))
         if self.owner is not None and self in self.owner.held:
             self.owner.held.remove(self)
         self.owner = None
